@@ -460,6 +460,15 @@ theorem hist_consumption_piecewise (g : Gen K) (xs zs : List K) :
     g.feed (xs ++ zs) = ((g.feed xs).1 ++ ((g.feed xs).2.feed zs).1, ((g.feed xs).2.feed zs).2) :=
   Gen.feed_append g xs zs
 
+/-- **C04.11a'** (`hist_spec_piecewise`): the same on the side of the property — answering from
+the snapshot and the delivered items (`specCall` on everything delivered, minus what was given) is
+independent of how the requests are chunked. -/
+theorem hist_spec_piecewise (s : SStrm K) (xs zs : List K) :
+    (specImpl (α := K)).feed s (xs ++ zs)
+      = (((specImpl (α := K)).feed s xs).1 ++ ((specImpl (α := K)).feed ((specImpl (α := K)).feed s xs).2 zs).1,
+         ((specImpl (α := K)).feed ((specImpl (α := K)).feed s xs).2 zs).2) :=
+  spec_feed_append filterCall_eq_specCall s xs zs
+
 /-- **C04.11b** (`hist_call_is_create_then_feed`): the one-call model of C04.1–C04.10 is the
 history model's call followed by one request for everything. -/
 theorem hist_call_is_create_then_feed (n d : List (Int × K)) (mem : Mem K) (zero : K) (xs : List K) :
